@@ -296,7 +296,7 @@ def gen_key(rng, arr, allow_list, f1p):
                 sel.append([p, "subset", rng.randint(0, 3)])
             else:
                 sel.append([p, "list", list(range(6)) if rng.chance(0.4) else [rng.randint(0, 5) for _ in range(rng.randint(1, 3))]])
-    spec = {"form": form, "sel": sel, "list_form": rng.weighted([("list", 4), ("tuple", 2), ("nparray", 1)])}
+    spec = {"form": form, "sel": sel, "list_form": rng.weighted([("list", 4), ("tuple", 2), ("nparray", 1)]), "np_items": rng.chance(0.15)}
     if rng.chance(f1p):
         spec["f1"] = rng.choice(["unknown_item", "slice_key", "not_subset"])
     return spec
@@ -323,6 +323,7 @@ def gen_op(rng, st, cfg):
             via = "ctor_nd"
         op = {"op": "mk", "via": via, "dims": gen_dims(rng, st), "vseed": rng.randint(0, 10 ** 6), "src": s,
               "num": rng.randint(-3, 9), "take": rng.randint(0, 4), "rot": rng.randint(0, 3)}
+        op["mem"] = rng.weighted([("c", 5), ("fortran", 2), ("reversed", 1), ("strided", 1)])
         if via in ("ctor_nd", "full_nd"):
             sf = gen_shape_fault(rng, fp)
             if sf:
@@ -382,7 +383,7 @@ def gen_op(rng, st, cfg):
     if kind == "set_values":
         if rng.chance(0.15):
             return {"op": "set_values", "t": s, "num": rng.randint(-3, 9)}
-        op = {"op": "set_values", "t": s, "vseed": rng.randint(0, 10 ** 6)}
+        op = {"op": "set_values", "t": s, "vseed": rng.randint(0, 10 ** 6), "mem": rng.weighted([("c", 5), ("fortran", 2), ("reversed", 1), ("strided", 1)])}
         sf = gen_shape_fault(rng, fp * 2)
         if sf:
             op["shape_fault"] = sf
